@@ -862,6 +862,12 @@ def gen_spec(rng, profile="mixed"):
                     st = None
             seq.append([dur, st])
         sched[w["id"]] = seq
+    # worker-asymmetric copies (drawn last so that the other draws of a seed stay what they were): a leaf test that some workers
+    # cannot compose (object restrictions of their nets) is parsed for the other workers only; its setup stays parsed for all
+    if len(workers) > 1 and rng.random() < 0.2:
+        leaves = [c for c in classes if c.get("leaf")]
+        for c in rng.sample(leaves, rng.randint(1, len(leaves))):
+            c["exclude"] = [w["id"] for w in rng.sample(workers, rng.randint(1, len(workers) - 1))]
     return {"workers": workers, "vms": vms, "cfg": cfg, "classes": classes, "pool": poolspec, "schedule": sched}
 
 
